@@ -43,8 +43,12 @@ class SolveRecorder:
         import scipy.sparse.linalg as sla
         self.sla = sla
         self.orig = sla.spsolve
-        self.first = None
         self.count = 0
+        self.reset()
+
+    def reset(self):
+        """called when an optimize() starts: the harmonic-extension solve judged is the one of the LAST optimize"""
+        self.first = None
         self.later_sv = None    # smallest sigma_min/sigma_max over the matrices of the later (smoothing) solves
 
     def __enter__(self):
@@ -99,11 +103,48 @@ def run_case(c, mesh=None):
     fld = ff.SurfaceFrameField(m, elem, **kw)
     out["edges"] = [[int(a), int(b)] for a, b in m.edges]
     out["n_boundary_edges"] = len(m.boundary_edges)
-    fld.initialize()
+    # ---- the protocol: which public stage methods the caller uses, in which order
+    proto = c.get("protocol", "init_opt")
+    snap = {"n_init": 0, "n_opt": 0}
+    orig_init, orig_opt = fld.initialize, fld.optimize
+    rec = SolveRecorder()
+
+    def w_init(*a, **k):
+        r = orig_init(*a, **k)
+        snap["n_init"] += 1
+        snap["var0"] = np.array(fld.var, dtype=complex).copy()
+        return r
+
+    def w_opt(*a, **k):
+        rec.reset()
+        snap["n_opt"] += 1
+        return orig_opt(*a, **k)
+    fld.initialize, fld.optimize = w_init, w_opt
+    final_ns = int(c["n_smooth"])
+    if proto == "init_opt_ns_opt":
+        fld.n_smooth = 0 if final_ns > 0 else 2     # the first optimisation runs with another number of smoothing steps
+    calls = {"init_opt": ["initialize", "optimize"], "run": ["run"], "call": ["__call__"], "init_run": ["initialize", "run"],
+             "init_call": ["initialize", "__call__"], "init_opt_run": ["initialize", "optimize", "run"], "run_run": ["run", "run"],
+             "opt_opt": ["initialize", "optimize", "optimize"], "init_opt_ns_opt": ["initialize", "optimize", "n_smooth", "optimize"]}[proto]
+    with rec:
+        try:
+            for name in calls:
+                if name == "n_smooth":
+                    fld.n_smooth = final_ns
+                elif name == "__call__":
+                    fld()
+                else:
+                    getattr(fld, name)()
+        except Exception as ex:  # noqa - the operator, constraints .. observed so far are returned with the error
+            out["crash"] = {"error": "%s: %s" % (type(ex).__name__, ex), "trace": traceback.format_exc()[-1500:]}
+    out["protocol"] = proto
+    out["stage_calls"] = [snap["n_init"], snap["n_opt"]]
+    if "var0" not in snap:
+        raise RuntimeError("the protocol %s never initialised the field" % proto)
     fe = [int(e) for e in fld.feat.feature_edges]
     out["feat"] = fe
     out["feat_vertices"] = sorted(int(v) for v in fld.feat.feature_vertices)
-    out["var0"] = [cpair(z) for z in fld.var]
+    out["var0"] = [cpair(z) for z in snap["var0"]]
     nF, nV = len(m.faces), len(m.vertices)
     if elem == "faces":
         out["bases"] = [[[float(x) for x in fld.conn._baseX[i]], [float(x) for x in fld.conn._baseY[i]]] for i in range(nF)]
@@ -129,12 +170,8 @@ def run_case(c, mesh=None):
             out["flat_diff"] = float(abs(lf - lap_scalar.astype(complex)).max()) if lf.nnz + lap_scalar.nnz else 0.0
     out["lap"] = mat_entries(lap)
     out["lap_shape"] = [int(lap.shape[0]), int(lap.shape[1])]
-    with SolveRecorder() as rec:
-        try:
-            fld.optimize()
-        except Exception as ex:  # noqa - the operator, constraints .. observed so far are returned with the error
-            out["crash"] = {"error": "%s: %s" % (type(ex).__name__, ex), "trace": traceback.format_exc()[-1500:]}
-            return out
+    if "crash" in out:
+        return out
     if rec.later_sv is not None and len(fe) > 0:
         out["smooth_sv"] = rec.later_sv
     if rec.first is not None and len(fe) > 0:  # the bordered branch: first call = the harmonic-extension solve
